@@ -95,17 +95,15 @@ mod proofs {
 #[cfg(all(test, not(kani)))]
 mod replay {
     use super::*;
+    fn dispatch(name: &str, r: &mut RSrc) -> bool {
+        match name {
+            "mvd_table" => h_mvd_table(r),
+            _ => return false,
+        }
+        true
+    }
     #[test]
     fn verif_replay() {
-        let name = std::env::var("VERIF_HARNESS").unwrap_or_default();
-        let mut r = RSrc::from_env();
-        match name.as_str() {
-            "mvd_table" => h_mvd_table(&mut r),
-            _ => {
-                println!("REPLAY-UNKNOWN harness={}", name);
-                return;
-            }
-        }
-        r.report(&name);
+        verif_replay_main(dispatch)
     }
 }
